@@ -1,6 +1,7 @@
 """C15 (partial, strongest): in the closure of every parser entry point of the anchored files,
 no length/index read from untrusted bytes sizes an allocation, indexes or slices memory, or
 feeds an unsafe access without a dominating check; no unwrap/panic is decided by such a value."""
+from vlib import fixtures
 import re
 
 from rules import taint
@@ -39,6 +40,7 @@ def analyse(ctx, fx, files=FILES, prefix=""):
 
 def run(ctx):
     fx = ctx.facts("default")
+    fixtures.run(ctx, ['taint'])
     cl, entries, res = analyse(ctx, fx)
     ctx.floor("entries", 150)
     ctx.floor("closure_fns", 180)
